@@ -185,11 +185,31 @@ package oras
 //@   ensures [monotone] forall o any, k descriptor.Descriptor :: old(present(o, k)) ==> present(o, k)
 //@   modifies ghost.present, ghost.pushes, ghost.lastPush, ghost.closedRC, ghost.readerOver, alloc, elems[any]
 //@
+//@ // mounting: what a Mounter does to the destination is assumed (`assumes`), the hook
+//@ // discipline around it is proved
+//@ iface registry.Mounter.Mount params ctx, desc, fromRepo, getContent
+//@   modifies all
+//@ ghost local mcnMountErr error
 //@ func mountOrCopyNode
-//@   trusted
-//@   ensures [nil-means-settled] result == nil ==> settled(dst, desc)
-//@   ensures forall o any, k descriptor.Descriptor :: old(present(o, k)) ==> present(o, k)
+//@   requires [wf] src != nil && dst != nil
+//@   opt trust-frame
+//@   assumes [nil-means-settled] result == nil ==> settled(dst, desc)
+//@   assumes forall o any, k descriptor.Descriptor :: old(present(o, k)) ==> present(o, k)
+//@   call copyNode requires [C01,C04:fallback-copies-the-same-node] args.src == src && args.dst == dst && args.desc == desc && args.opts == opts
+//@   call opts.MountFrom requires [C04:mount-sources-asked-for-this-blob] args.arg1 == desc
+//@   call Mount requires [C01,C04:mount-of-this-blob-from-the-listed-repository] args.desc == desc && args.fromRepo == sourceRepository && args.getContent != nil
+//@   call Mount requires [captured:closure-sees-a-valid-source-index] 0 <= i && i < len(sourceRepositories)
+//@   call opts.OnMounted requires [C04:mounted-hook-only-when-no-content-was-requested] !mountFailed && args.arg1 == desc
+//@   call opts.PostCopy requires [C04:post-copy-hook-for-this-blob] args.arg1 == desc
+//@   loop 0 invariant [objects] src != nil && dst != nil && len(sourceRepositories) > 0
 //@   modifies ghost.present, ghost.pushes, ghost.lastPush, ghost.closedRC, ghost.readerOver, alloc, elems[any], elems[string]
+//@
+//@ func mountOrCopyNode$1
+//@   requires [captured:set-up-by-mountOrCopyNode] src != nil && 0 <= i && i < len(sourceRepositories)
+//@   ensures [C04:any-request-for-content-marks-the-mount-as-failed] mountFailed
+//@   call opts.PreCopy requires [C04:pre-copy-hook-only-before-the-real-copy] i == len(sourceRepositories) - 1 && args.arg1 == desc
+//@   call src.Fetch requires [C01,C04:content-fetched-only-for-the-last-source] i == len(sourceRepositories) - 1 && args.target == desc
+//@   ensures [C04:earlier-sources-are-skipped-not-copied] i < len(sourceRepositories) - 1 ==> result1 == skipSource && result0 == nil
 //@
 //@ ghost local cgCopies int
 //@ ghost local cgFailed bool
